@@ -56,3 +56,19 @@ def run(ctx):
                        "directed and simplicial classes are covered by the provenance predicate on the implementation; their Lean models "
                        "are added when the C02/C03 models land"]
     return finish(ctx, trusted_base=TRUSTED_COMMON)
+
+
+def replay(ctx, path):
+    import json
+    from ..c04_prov import replay_provenance
+    from ..sm import replay_sm
+    j = json.load(open(path))
+    if "provenance" in j.get("case", {}):
+        fails = replay_provenance(ctx, j["case"])
+        if fails:
+            print(f"VIOLATION property=C04 replay={path}")
+            print(f"  reproduced: {fails[0][0]}: {fails[0][1]}")
+            return 1
+        print(f"replay {path}: not reproduced on the current tree")
+        return 0
+    return replay_sm(ctx, MH, "HG", FIELDS, pred_hg, path)
